@@ -280,3 +280,171 @@ Section Relabel.
       reflexivity.
   Qed.
 End Relabel.
+
+(* converse of clusters_relabel: every clusters row of the relabelled input is the image of a row *)
+Lemma clusters_relabel_conv : forall f, (forall a b, f a = f b -> a = b) -> forall g, (forall a b, g a = g b -> a = b) ->
+  forall C thr P r', NoDup (map fst C) ->
+  In r' (graph_metrics_clusters (graph_metrics_nodes (map (fC f g) C) (truncated_edges thr (map (fP f) P)))) ->
+  exists r, In r (graph_metrics_clusters (graph_metrics_nodes C (truncated_edges thr P))) /\
+    r' = {| cl_cid := g (cl_cid r); cl_n_nodes := cl_n_nodes r; cl_n_edges := cl_n_edges r;
+            cl_density := cl_density r; cl_centralisation := cl_centralisation r |}.
+Proof.
+  intros f Hinj g Ginj C thr P r' Hnd Hin.
+  assert (Hnd' : NoDup (map fst (map (fC f g) C))).
+  { replace (map fst (map (fC f g) C)) with (map f (map fst C)) by (rewrite !map_map; reflexivity).
+    apply FinFun.Injective_map_NoDup; [intros a b; apply Hinj|assumption]. }
+  apply clusters_in in Hin; [|assumption]. destruct Hin as [c' [Hc' ->]].
+  replace (map snd (map (fC f g) C)) with (map g (map snd C)) in Hc' by (rewrite !map_map; reflexivity).
+  apply in_map_iff in Hc'. destruct Hc' as [c [<- Hc]].
+  eexists. split.
+  - apply clusters_in; [assumption|]. exists c. split; [assumption|reflexivity].
+  - cbn zeta. cbn [cl_cid cl_n_nodes cl_n_edges cl_density cl_centralisation].
+    rewrite (members_relabel f g Ginj), (truncated_relabel f), map_map.
+    rewrite (map_ext (fun x => incidence (map (fP f) (truncated_edges thr P)) (f x)) (incidence (truncated_edges thr P)))
+      by (intros; apply (incidence_relabel f Hinj)).
+    reflexivity.
+Qed.
+
+(* ------------------------------------------------------------------ the edges table under row order / orientation *)
+Definition canon2 (e : Z * Z) : Z * Z := (Z.min (fst e) (snd e), Z.max (fst e) (snd e)).
+Definition cntc (E : list (Z * Z)) (p : Z * Z) : nat := count_occ pairZ_dec (map canon2 E) p.
+Definition canon_row (r : Z * Z * bool) : Z * Z * bool := (canon2 (fst r), snd r).
+
+Lemma canon2_swap : forall v w, canon2 (w, v) = canon2 (v, w).
+Proof. intros. unfold canon2. cbn [fst snd]. rewrite Z.min_comm, Z.max_comm. reflexivity. Qed.
+
+Lemma canon2_eq : forall a b v w, canon2 (a, b) = canon2 (v, w) <-> (a = v /\ b = w) \/ (a = w /\ b = v).
+Proof.
+  intros. unfold canon2. cbn [fst snd]. split.
+  - intros H. inversion H. lia.
+  - intros [[-> ->]|[-> ->]]; [reflexivity|]. rewrite Z.min_comm, Z.max_comm. reflexivity.
+Qed.
+
+Lemma uedge_cnt : forall E v w, uedge E v w <-> (1 <= cntc E (canon2 (v, w)))%nat.
+Proof.
+  intros E v w. unfold cntc. assert (Hgt : forall n, (1 <= n)%nat <-> (n > 0)%nat) by (intros; lia).
+  rewrite Hgt, <- (count_occ_In pairZ_dec). unfold uedge. rewrite in_map_iff. split.
+  - intros [H|H]; [exists (v, w)|exists (w, v)]; (split; [|assumption]); [reflexivity|apply canon2_swap].
+  - intros [[a b] [Heq Hin]]. apply canon2_eq in Heq. destruct Heq as [[-> ->]|[-> ->]]; [left|right]; assumption.
+Qed.
+
+Lemma cntc_cons : forall x E p, cntc (x :: E) p = ((if pairZ_dec (canon2 x) p then 1 else 0) + cntc E p)%nat.
+Proof. intros. unfold cntc. cbn [map count_occ]. destruct (pairZ_dec (canon2 x) p); reflexivity. Qed.
+
+Lemma nth_cnt : forall E i e, nth_error E i = Some e -> (1 <= cntc E (canon2 e))%nat.
+Proof.
+  induction E as [|x E IH]; intros [|i] e H; cbn in H; try discriminate; rewrite cntc_cons.
+  - inversion H; subst. destruct (pairZ_dec (canon2 e) (canon2 e)); [lia|congruence].
+  - specialize (IH i e H). lia.
+Qed.
+
+(* the undirected edge relation that remains after removing one occurrence *)
+Lemma uedge_remove_nth : forall E i e v w, nth_error E i = Some e ->
+  (uedge (remove_nth i E) v w <->
+   ((if pairZ_dec (canon2 e) (canon2 (v, w)) then 2 else 1) <= cntc E (canon2 (v, w)))%nat).
+Proof.
+  induction E as [|x E IH]; intros [|i] e v w H; cbn [nth_error] in H; try discriminate.
+  - inversion H; subst x. cbn [remove_nth]. rewrite uedge_cnt, cntc_cons.
+    destruct (pairZ_dec (canon2 e) (canon2 (v, w))); lia.
+  - cbn [remove_nth]. rewrite uedge_cnt, !cntc_cons. specialize (IH i e v w H). rewrite uedge_cnt in IH.
+    pose proof (nth_cnt E i e H) as Hc.
+    destruct (pairZ_dec (canon2 e) (canon2 (v, w))) as [E1|E1], (pairZ_dec (canon2 x) (canon2 (v, w))) as [E2|E2];
+      try rewrite <- E1 in *; lia.
+Qed.
+
+Lemma conn_sym : forall E v w, conn E v w -> conn E w v.
+Proof.
+  intros E v w H. induction H as [v|v x w Hvx _ IH]; [apply conn_refl|].
+  apply conn_snoc with x; [assumption|]. destruct Hvx; [right|left]; assumption.
+Qed.
+
+(* removing either of two occurrences of the same undirected pair, from two lists with the same
+   undirected multiset, leaves the same connectivity *)
+Lemma remove_occurrence_invariant : forall E E' i j e e' p,
+  (forall q, cntc E q = cntc E' q) ->
+  nth_error E i = Some e -> nth_error E' j = Some e' -> canon2 e = p -> canon2 e' = p ->
+  forall a b, conn (remove_nth i E) a b <-> conn (remove_nth j E') a b.
+Proof.
+  intros E E' i j e e' p Hc Hi Hj He He'. apply conn_same_uedges. intros v w.
+  rewrite (uedge_remove_nth E i _ v w Hi), (uedge_remove_nth E' j _ v w Hj), Hc, He, He'. reflexivity.
+Qed.
+
+Lemma cntc_perm : forall E E', Permutation (map canon2 E) (map canon2 E') -> forall p, cntc E p = cntc E' p.
+Proof. intros E E' H p. unfold cntc. apply Permutation_count_occ. exact H. Qed.
+
+(* position-independent description of the bridge flag of an undirected pair *)
+Fixpoint first_idx (p : Z * Z) (E : list (Z * Z)) : nat :=
+  match E with [] => O | x :: t => if pairZ_dec (canon2 x) p then O else S (first_idx p t) end.
+Definition flag_of (E : list (Z * Z)) (p : Z * Z) : bool :=
+  negb (reach_b (remove_nth (first_idx p E) E) (fst p) (snd p)).
+
+Lemma first_idx_spec : forall p E, In p (map canon2 E) -> exists e, nth_error E (first_idx p E) = Some e /\ canon2 e = p.
+Proof.
+  induction E as [|x t IH]; intros H; [contradiction|]. cbn [first_idx].
+  destruct (pairZ_dec (canon2 x) p) as [Heq|Hne]; [exists x; auto|].
+  destruct H as [H|H]; [contradiction|]. apply IH. assumption.
+Qed.
+
+Lemma bool_eq_of_iff : forall a b : bool, (a = true <-> b = true) -> a = b.
+Proof. intros [|] [|] H; try reflexivity; [symmetry; apply H; reflexivity|apply H; reflexivity]. Qed.
+
+Lemma flag_of_ext : forall E E', Permutation (map canon2 E) (map canon2 E') ->
+  forall p, In p (map canon2 E) -> flag_of E p = flag_of E' p.
+Proof.
+  intros E E' Hp p Hin. unfold flag_of.
+  destruct (first_idx_spec p E Hin) as [e [Hi Hc]].
+  destruct (first_idx_spec p E' (Permutation_in _ Hp Hin)) as [e' [Hj Hc']].
+  f_equal. apply bool_eq_of_iff. rewrite !reach_b_correct.
+  apply (remove_occurrence_invariant E E' _ _ e e' p (cntc_perm E E' Hp) Hi Hj Hc Hc').
+Qed.
+
+(* the flag of row i is the flag of its undirected pair *)
+Lemma is_bridge_flag_of : forall TE i l r, nth_error (ends TE) i = Some (l, r) ->
+  is_bridge_b TE i = flag_of (ends TE) (canon2 (l, r)).
+Proof.
+  intros TE i l r Hi. unfold is_bridge_b, flag_of. rewrite Hi. f_equal.
+  assert (Hin : In (canon2 (l, r)) (map canon2 (ends TE))) by (apply in_map; eapply nth_error_In; eassumption).
+  destruct (first_idx_spec _ _ Hin) as [e [Hj Hc]].
+  apply bool_eq_of_iff. rewrite !reach_b_correct.
+  rewrite (remove_occurrence_invariant (ends TE) (ends TE) i _ (l, r) e (canon2 (l, r)) (fun _ => eq_refl) Hi Hj eq_refl Hc).
+  set (R := remove_nth (first_idx (canon2 (l, r)) (ends TE)) (ends TE)).
+  unfold canon2. cbn [fst snd].
+  destruct (Z.le_ge_cases l r) as [H|H].
+  - rewrite Z.min_l, Z.max_r by lia. reflexivity.
+  - rewrite Z.min_r, Z.max_l by lia. split; apply conn_sym.
+Qed.
+
+Lemma edges_table_flag_of : forall TE,
+  map canon_row (graph_metrics_edges TE) = map (fun e => (canon2 e, flag_of (ends TE) (canon2 e))) (ends TE).
+Proof.
+  intros TE. unfold graph_metrics_edges. rewrite map_map.
+  assert (H : forall k (L : list pedge), (forall i e, nth_error L i = Some e -> nth_error (ends TE) (k + i) = Some (pe_l e, pe_r e)) ->
+    map (fun x : nat * pedge => canon_row (pe_l (snd x), pe_r (snd x), is_bridge_b TE (fst x))) (combine (seq k (length L)) L)
+    = map (fun e => (canon2 e, flag_of (ends TE) (canon2 e))) (ends L)).
+  { intros k L. revert k. induction L as [|e t IH]; intros k Hn; [reflexivity|]. cbn [length seq combine map ends fst snd].
+    f_equal.
+    - unfold canon_row. cbn [fst snd]. f_equal. apply is_bridge_flag_of. rewrite <- (Nat.add_0_r k). apply (Hn O e). reflexivity.
+    - apply IH. intros i e0 H0. replace (S k + i)%nat with (k + S i)%nat by lia. apply (Hn (S i) e0). exact H0. }
+  apply (H O TE). intros i e Hi. cbn [Nat.add]. unfold ends. rewrite nth_error_map, Hi. reflexivity.
+Qed.
+
+Lemma canon2_ends_pcanon : forall e, canon2 (pe_l (pcanon e), pe_r (pcanon e)) = canon2 (pe_l e, pe_r e).
+Proof.
+  intros e. unfold pcanon. destruct (pe_l e <=? pe_r e); [reflexivity|]. unfold pflip, pe_l, pe_r. cbn [fst snd]. apply canon2_swap.
+Qed.
+
+(* the edge-metric rows (endpoints canonicalised) are the same multiset under any row order and
+   orientation of the thresholded prediction rows *)
+Lemma edges_table_perm_flip : forall TE TE', perm_flip TE TE' ->
+  Permutation (map canon_row (graph_metrics_edges TE)) (map canon_row (graph_metrics_edges TE')).
+Proof.
+  intros TE TE' H. rewrite !edges_table_flag_of.
+  assert (Hc : Permutation (map canon2 (ends TE)) (map canon2 (ends TE'))).
+  { unfold ends. rewrite !map_map.
+    rewrite <- (map_ext _ _ canon2_ends_pcanon). rewrite <- (map_ext _ _ canon2_ends_pcanon) at 1.
+    rewrite <- !(map_map pcanon (fun e => canon2 (pe_l e, pe_r e))). apply Permutation_map. exact H. }
+  rewrite <- !(map_map canon2 (fun p => (p, flag_of _ p))).
+  rewrite (map_ext_in (fun p => (p, flag_of (ends TE) p)) (fun p => (p, flag_of (ends TE') p)))
+    by (intros p Hp; rewrite (flag_of_ext _ _ Hc p Hp); reflexivity).
+  apply Permutation_map. exact Hc.
+Qed.
